@@ -13,6 +13,26 @@ round trips   a generated tree (unicode / combining / metacharacter names, empty
               io.BytesIO}; the archive is reopened read-only and compared with the reference
               in both directions through walk + getinfo + readbytes + openbin + listdir.
 
+time bounds   per archive family, one tree whose files and directories carry every boundary
+              modification time the format can hold (tar: 0, +-1, before 1970, 2**31-1, 2**31,
+              2**32, 2**33-1 / 2**33 (the end of the octal ustar field), sub-second parts;
+              zip: 1980-01-01T00:00:00 .. 2107-12-31T23:59:59, even / odd / fractional seconds),
+              through every format x temp_fs x target x route of that family, plus random
+              trees drawn from the family's own time range.
+
+keywords      every keyword parameter (found with inspect.signature) of ZipFS / TarFS (write
+              and read mode), WriteZipFS / WriteTarFS, ReadZipFS / ReadTarFS, their
+              write_zip / write_tar methods, fs.compress.write_zip / write_tar and
+              open_fs('zip://...' / 'tar://...') is driven through each of its documented
+              values, one parameter at a time (all combinations in the thorough tier), on a
+              tree of non-ASCII, long (> 100 characters, path > 255 characters, component
+              > 255 characters on memory temp filesystems) and odd names.  Expected: the
+              same tree whenever every name is encodable in the requested `encoding`;
+              with a name the encoding cannot express, either the same tree or an
+              exception while writing (never a silently different tree).  The compression
+              actually found in the archive must be the requested one (tar: also the one
+              implied by the file name, as the TarFS documentation promises).
+
 crafted       archives built with zipfile / tarfile whose member names are hostile or
               odd ('..', absolute, 'a/../b', duplicates, implicit directories, file and
               directory of the same name, file used as a directory, ...), opened with
@@ -51,6 +71,13 @@ import zipfile
 import common
 
 PID = "C15"
+
+# TODO(main): signatures of misbehaviour of the UNCHANGED library exposed by the coverage of this
+# module that are not yet in known_findings.json.  A failure whose signature is listed here does
+# not fail the check (it is counted in coverage['pending_findings_seen']); once the signature is
+# registered as a known finding it prints as KNOWN-FINDING and can be dropped from this list.
+PENDING_FINDINGS = [
+]
 LOCAL_KNOWN = os.path.join(os.path.dirname(os.path.abspath(__file__)), "c15_known_local.json")
 
 T1980 = 315532800           # 1980-01-01T00:00:00Z, the DOS epoch
@@ -101,8 +128,51 @@ def gen_mtime(rnd):
     return t
 
 
-def gen_tree(rnd, budget, big=None, depth=0, maxdepth=6):
+# Boundary modification times per archive family (seconds since the epoch).
+#   tar  the ustar header holds 11 octal digits (< 2**33), larger and negative values need a pax
+#        record / GNU base-256 field; 2**31 is where 32-bit time_t ends; 0 is the epoch itself
+#        (reproducible builds, `tar --mtime=@0`).  Values the scratch file system of the host cannot
+#        hold (ext4 stops at 2**34 + 2**31 - 1 ... ) are only used with memory temp filesystems.
+#   zip  DOS date/time: 1980-01-01T00:00:00 .. 2107-12-31T23:59:58, two-second resolution.
+T2107_LAST = 4354819199     # 2107-12-31T23:59:59Z
+TAR_TIMES = [0, 1, 2, -1, -2 ** 31, 0.5, 0.999, T1980 - 1, 2 ** 31 - 1, 2 ** 31, 2 ** 31 + 0.75, 2 ** 32 - 1, 2 ** 32,
+             2 ** 33 - 1, 2 ** 33, 2 ** 33 + 1.25]
+TAR_TIMES_MEM = [2 ** 36 + 0.5, 253402300799, -62135596800]      # year 9999 / year 1: datetime's own range
+ZIP_TIMES = [T1980, T1980 + 1, T1980 + 2, T1980 + 3, T1980 + 1.5, T1980 + 0.25, T1980 + 59, T1980 + 60, T1980 + 86399,
+             T1980 + 86400, 2 ** 31 - 1, 2 ** 31, 2 ** 31 + 0.75, 2 ** 32 - 1, 2 ** 32, T2107_LAST - 1, T2107_LAST,
+             T2107_LAST - 0.5, T2107_LAST - 2]
+
+
+def time_tree(times):
+    """Every time on a file, on an empty directory and on a directory with a child."""
+    nodes = []
+    for i, t in enumerate(times):
+        nodes.append(dict(n=u"f%d" % i, t=t, size=i % 3, seed=i))
+        if i % 2:
+            nodes.append(dict(n=u"d%d" % i, t=t, d=[]))
+        else:
+            nodes.append(dict(n=u"d%d" % i, t=t, d=[dict(n=u"c", t=times[(i + 1) % len(times)], size=1, seed=i)]))
+    return nodes
+
+
+def gen_mtime_tar(rnd):
+    r = rnd.random()
+    if r < 0.4:
+        t = rnd.choice(TAR_TIMES)
+    elif r < 0.6:
+        t = rnd.randint(-5, 5)
+    elif r < 0.8:
+        t = rnd.randint(-2 ** 31, 2 ** 33 + 1000)
+    else:
+        t = rnd.randint(0, T1980)
+    if t >= 0 and t == int(t) and rnd.random() < 0.15:
+        t += rnd.choice([0.5, 0.25, 0.999])
+    return t
+
+
+def gen_tree(rnd, budget, big=None, depth=0, maxdepth=6, gen_mtime=None):
     """A list of nodes; budget is a one-element list (remaining node count)."""
+    gen_mtime = gen_mtime or globals()["gen_mtime"]
     nodes = []
     k = rnd.randint(0 if depth else 1, 4)
     for name in rnd.sample(NAMES, k):
@@ -110,7 +180,7 @@ def gen_tree(rnd, budget, big=None, depth=0, maxdepth=6):
             break
         budget[0] -= 1
         if depth + 1 < maxdepth and rnd.random() < 0.45:
-            nodes.append(dict(n=name, t=gen_mtime(rnd), d=gen_tree(rnd, budget, big, depth + 1, maxdepth)))
+            nodes.append(dict(n=name, t=gen_mtime(rnd), d=gen_tree(rnd, budget, big, depth + 1, maxdepth, gen_mtime)))
         else:
             size = rnd.choice([0, 0, 1, 2, 17, 255, 4096, 65537] if big is None else [0, 1, 300, 70000, big])
             nodes.append(dict(n=name, t=gen_mtime(rnd), size=size, seed=rnd.randint(0, 999)))
@@ -327,6 +397,14 @@ def run_roundtrip(case, workdir):
     exp = expected_of(ref)
     # the reference itself must be what the generator asked for
     assert len(exp) == count_nodes(case["tree"])
+    if case.get("kw"):
+        try:
+            fails = run_kw(case, ref, exp, workdir)
+        finally:
+            ref.close()
+        for f in fails:
+            f["utc_offset"] = local_offset()
+        return fails
     with TZ(case.get("tz")):
         try:
             tgt = write_archive(ref, case["tree"], case["fmt"], case["temp"], case["target"], case["route"], workdir)
@@ -352,6 +430,20 @@ def run_roundtrip(case, workdir):
 def roundtrip_signature(case, fails):
     """One signature per case: the most fundamental discrepancy wins."""
     fam = family(case["fmt"])
+    if case.get("kw"):
+        # keyword cases: "<family> <callable>(<parameters given>)"; the compression verdict does not depend
+        # on which parameter was swept
+        kw = case["kw"]
+        if all(f["kind"] == "compression" for f in fails):
+            d = fails[0]["detail"]
+            return "keywords %s: archive written with compression %s where %s was requested [%s, %s source]" % (
+                fam, d["got"], d["want"], fails[0]["archive"],
+                "memory" if kw["args"].get("temp_fs", kw["base_temp"]) in MEM_TEMPS else "host")
+        fails = [f for f in fails if f["kind"] != "compression"]
+        given = sorted(kw["args"]) + ["read:" + k for k in sorted(kw["read_args"]) if k not in kw["args"]]
+        fam = "%s %s(%s)" % (fam, kw["api"], ",".join(given))
+        if kw["lenient"]:
+            fam += " names outside the encoding"
     kinds = set(f["kind"] for f in fails)
     for k in ("exception", "missing", "extra", "duplicate", "type", "name", "bytes", "size", "listdir"):
         if k in kinds:
@@ -363,10 +455,12 @@ def roundtrip_signature(case, fails):
                 words = [w for w in text.replace(": ", " ").split(" ") if w.startswith(("err:", "crash:"))]
                 extra = " " + (words[0].rstrip(":") if words else "unknown")
                 extra += " at " + ("write" if f0["path"] == "<write>" else "open" if f0["path"] == "<open>" else "read")
-            return "roundtrip %s: %s%s" % (fam, k, extra)
+            return "%s %s: %s%s" % ("keywords" if case.get("kw") else "roundtrip", fam, k, extra)
     mt = [f for f in fails if f["kind"] == "mtime"]
     off = mt[0]["utc_offset"]
-    stat_route = case["temp"] == "default"
+    stat_route = case.get("temp") == "default"
+    if case.get("kw"):
+        return "keywords %s: mtime %s" % (fam, "missing" if all(f["detail"]["got"] is None for f in mt) else "wrong")
     if fam == "zip" and off and stat_route and all(f["detail"]["diff"] is not None and
                                                    abs(f["detail"]["diff"] - off) <= 2 for f in mt):
         return ("roundtrip zip: mtime shifted by the local UTC offset (stat sources are written in "
@@ -374,6 +468,394 @@ def roundtrip_signature(case, fails):
     if all(f["detail"]["got"] is None for f in mt):
         return "roundtrip %s: mtime missing%s" % (fam, " on directories" if all(f["detail"]["dir"] for f in mt) else "")
     return "roundtrip %s: mtime wrong%s" % (fam, " on directories" if all(f["detail"]["dir"] for f in mt) else "")
+
+
+# --------------------------------------------------------------------------- keyword arguments
+
+ENCODINGS = ["utf-8", "utf8", "UTF-8", "latin-1", "cp437", "CP437", "ascii", "cp1252", "utf-16", "shift_jis"]
+ZIP_COMPRESSIONS = [zipfile.ZIP_STORED, zipfile.ZIP_DEFLATED, zipfile.ZIP_BZIP2, zipfile.ZIP_LZMA]
+TAR_COMPRESSIONS = [None, "gz", "bz2", "xz"]
+TEMP_SPECS = ["url:temp://", "url:mem://", "url:temp://__archivetemp__", "url:osfs", "inst:TempFS", "inst:MemoryFS"]
+MEM_TEMPS = ("url:mem://", "inst:MemoryFS", "mem")
+WALKERS = ["none", "walker", "depth", "ignore_errors"]
+KW_TARGETS = ["path", "bytesio", "filehandle"]
+# file name -> compression TarFS(write=True) must infer from it (TarFS._compression_formats as documented:
+# "The compression is set from the new file name")
+TAR_EXTS = [(".tar", None), (".tar.gz", "gz"), (".tgz", "gz"), (".tar.bz2", "bz2"), (".tbz", "bz2"),
+            (".tar.xz", "xz"), (".txz", "xz")]
+TAR_MAGIC = {"gz": b"\x1f\x8b", "bz2": b"BZh", "xz": b"\xfd7zXZ\x00"}
+
+# Values of each keyword parameter, from the documentation of the callables; 'fixed' = decided by the
+# role of the call (write / read side), not swept.
+KW_VALUES = {
+    "compression": {"zip": ZIP_COMPRESSIONS, "tar": TAR_COMPRESSIONS},
+    "encoding": ENCODINGS,
+    "temp_fs": TEMP_SPECS,
+    "walker": WALKERS,
+    "file": ["none"] + KW_TARGETS,              # write_zip / write_tar methods: None = the constructor's file
+    "writeable": [False, True],
+    "cwd": [".", "workdir", "/nonexistent-cwd"],
+    "default_protocol": ["osfs", "mem"],
+    "write": "fixed",
+    "create": "fixed",
+}
+KW_WRITE_APIS = ["ctor", "cls", "method", "compress", "opener"]
+KW_READ_APIS = ["read_ctor", "read_cls", "read_opener"]
+KW_STATS = {}
+
+KW_POOL = [
+    u"plain", u"b.txt",
+    u"café", u"naïve.txt", u"über.bin", u"ß", u"Åñö",      # latin-1, cp437, cp1252
+    u"░▒▓", u"αβ", u"€", u"ｶﾅ",                         # cp437 only / cp1252 only / shift_jis
+    u"日本語", u"\U0001F600.bin", u"é", u"ملف", u"Ж",      # utf-8 only among the above
+    u"x" * 101, u"é" * 120, u"L" * 255,                                                   # > 100 characters / bytes
+    u" sp ace ", u"-rf", u"back\\slash", u"new\nline", u"a:b", u"%41%2f", u"?[x]*", u"...",     # odd
+]
+KW_LONG_COMPONENT = [u"z" * 300, u"ü" * 256]      # > 255: not a legal host file name, memory temp_fs only
+
+
+def encodable(name, encoding):
+    try:
+        name.encode(encoding)
+        return True
+    except (UnicodeError, LookupError):
+        return False
+
+
+def kw_tree(encoding, strict, long_component):
+    """The name tree for a filename encoding: every pool name (strict: every name the encoding can
+    express) as a file or as a directory with a child and an empty directory, and a chain of long
+    directory names down to a path of more than 255 characters."""
+    ok = (lambda n: encodable(n, encoding)) if strict else (lambda n: True)
+    names = [n for n in KW_POOL + (KW_LONG_COMPONENT if long_component else []) if ok(n)]
+    nodes = []
+    for i, n in enumerate(names):
+        t = 1000000000 + 3 * i
+        if i % 2:
+            nodes.append(dict(n=n, t=t, size=(i * 37) % 300, seed=i))
+        else:
+            nodes.append(dict(n=n, t=t, d=[dict(n=names[(i + 1) % len(names)], t=t + 1, size=i % 4, seed=i),
+                                           dict(n=names[(i + 2) % len(names)], t=t + 2, d=[])]))
+    mid = u"é" * 90 if ok(u"é") else u"m" * 90
+    leaf = u"deep-ü.txt" if ok(u"ü") else u"deep.txt"
+    nodes.append(dict(n=u"A" * 90, t=1000000501, d=[dict(n=mid, t=1000000502, d=[dict(n=u"C" * 90, t=1000000503, d=[
+        dict(n=leaf, t=1000000504, size=9, seed=9), dict(n=u"hollow", t=1000000505, d=[])])])]))
+    return nodes
+
+
+def kw_surface(fam):
+    """api -> the real callable whose signature is enumerated."""
+    import fs
+    from fs import compress, tarfs, zipfs
+    if fam == "zip":
+        return dict(ctor=zipfs.ZipFS.__new__, cls=zipfs.WriteZipFS.__init__, method=zipfs.WriteZipFS.write_zip,
+                    compress=compress.write_zip, opener=fs.open_fs,
+                    read_ctor=zipfs.ZipFS.__new__, read_cls=zipfs.ReadZipFS.__init__, read_opener=fs.open_fs)
+    return dict(ctor=tarfs.TarFS.__new__, cls=tarfs.WriteTarFS.__init__, method=tarfs.WriteTarFS.write_tar,
+                compress=compress.write_tar, opener=fs.open_fs,
+                read_ctor=tarfs.TarFS.__new__, read_cls=tarfs.ReadTarFS.__init__, read_opener=fs.open_fs)
+
+
+def kw_params(func):
+    """Names and defaults of the parameters that can be left out (the keyword arguments)."""
+    import inspect
+    return [(p.name, p.default) for p in inspect.signature(func).parameters.values()
+            if p.default is not p.empty and p.kind in (p.POSITIONAL_OR_KEYWORD, p.KEYWORD_ONLY)]
+
+
+def kw_values(fam, param):
+    v = KW_VALUES.get(param)
+    if isinstance(v, dict):
+        v = v[fam]
+    return v
+
+
+def kw_default(fam, api, param):
+    return dict(kw_params(kw_surface(fam)[api]))[param]
+
+
+def kw_case(rnd, fam, api, args, read="ctor", read_args=None, lenient=False, target=None, ext=None, base_temp=None):
+    """A keyword case.  args: the keyword arguments of the write-side call (JSON-able specs);
+    read / read_args: how the archive is reopened."""
+    args = dict(args)
+    target = target or rnd.choice(KW_TARGETS)
+    if api == "opener" or read == "opener":
+        target = "path"
+    if ext is None:
+        ext = ".zip" if fam == "zip" else rnd.choice(TAR_EXTS)[0]
+    if base_temp is None:
+        base_temp = rnd.choice(["default", "mem"])      # the temp_fs / source when it is not the swept parameter
+    temp = args.get("temp_fs", base_temp)
+    enc = args.get("encoding", (read_args or {}).get("encoding", "utf-8"))
+    rargs = dict(read_args or {})
+    if "encoding" in args and read != "opener":
+        rargs.setdefault("encoding", args["encoding"])
+    kw = dict(fam=fam, api=api, args=args, read=read, read_args=rargs, target=target, ext=ext, base_temp=base_temp,
+              lenient=bool(lenient))
+    return dict(kw=kw, fmt=fam, tz=None, tree=kw_tree(enc, not lenient, temp in MEM_TEMPS))
+
+
+def explore_kw(rnd, thorough):
+    """One case per (callable, keyword parameter, documented value) -- others at their defaults --
+    plus the all-defaults call; thorough: the full product for the constructors and fs.compress."""
+    cases = []
+    unmodelled = []
+    swept = {}
+    for fam in ("zip", "tar"):
+        surf = kw_surface(fam)
+
+        def add(api, args, **more):
+            encs = [v for k, v in list(args.items()) + list(more.get("read_args", {}).items()) if k == "encoding"]
+            cases.append(kw_case(rnd, fam, api, args, **more))
+            if encs and any(not encodable(n, encs[0]) for n in KW_POOL):
+                cases.append(kw_case(rnd, fam, api, args, lenient=True, **more))
+        for api in KW_WRITE_APIS:
+            add(api, {}, read=rnd.choice(["ctor", "cls"]))
+            for param, _default in kw_params(surf[api]):
+                vals = kw_values(fam, param)
+                if vals is None:
+                    unmodelled.append("%s %s(%s)" % (fam, api, param))
+                    continue
+                if vals == "fixed":
+                    continue
+                swept.setdefault("%s(%s)" % (api, param), len(vals))
+                for v in vals:
+                    add(api, {param: v}, read=rnd.choice(["ctor", "cls"] if api != "opener" else ["ctor", "cls", "opener"]))
+        for api in KW_READ_APIS:
+            rd = api[5:]
+            for param, _default in kw_params(surf[api]):
+                vals = kw_values(fam, param)
+                if vals is None:
+                    unmodelled.append("%s %s(%s)" % (fam, api, param))
+                    continue
+                if vals == "fixed":
+                    continue
+                swept.setdefault("%s(%s)" % (api, param), len(vals))
+                for v in vals:
+                    add(rnd.choice(["ctor", "compress"]) if rd != "opener" else "ctor", {}, read=rd, read_args={param: v})
+        # compression implied by the file name (every documented extension), path and named file object
+        if fam == "tar":
+            for ext, _comp in TAR_EXTS:
+                for target in ("path", "filehandle"):
+                    for api in ("ctor", "opener"):
+                        if api == "ctor" or target == "path":
+                            cases.append(kw_case(rnd, fam, api, {}, read=rnd.choice(["ctor", "cls"]), target=target, ext=ext))
+        if thorough:
+            for api in ("ctor", "cls", "compress"):
+                names = [p for p, _d in kw_params(surf[api]) if kw_values(fam, p) not in (None, "fixed")]
+
+                def product(i, acc):
+                    if i == len(names):
+                        add(api, dict(acc), read=rnd.choice(["ctor", "cls"]))
+                        return
+                    for v in kw_values(fam, names[i]):
+                        product(i + 1, acc + [(names[i], v)])
+                product(0, [])
+    return cases, unmodelled, swept
+
+
+def kw_decode(kw, args, workdir, made):
+    """Turn the JSON-able argument specs into the real objects; `made` collects what has to be closed."""
+    from fs.memoryfs import MemoryFS
+    from fs.tempfs import TempFS
+    from fs.walk import Walker
+    out = {}
+    for k, v in args.items():
+        if k == "temp_fs":
+            if v == "url:osfs":
+                v = "osfs://" + tempfile.mkdtemp(dir=workdir, prefix="osfs")
+            elif v.startswith("url:"):
+                v = v[4:]
+            else:
+                v = TempFS() if v == "inst:TempFS" else MemoryFS()
+                made.append(v)
+        elif k == "walker":
+            v = {"none": None, "walker": Walker(), "depth": Walker(search="depth"),
+                 "ignore_errors": Walker(ignore_errors=True)}[v]
+        elif k == "cwd" and v == "workdir":
+            v = workdir
+        out[k] = v
+    return out
+
+
+def kw_target(kind, ext, workdir, made, tag="kw"):
+    if kind == "bytesio":
+        return io.BytesIO()
+    path = os.path.join(workdir, tag + ext)
+    if os.path.exists(path):
+        os.remove(path)
+    if kind == "path":
+        return path
+    fh = open(path, "w+b")
+    made.append(fh)
+    return fh
+
+
+def tar_name_compression(ext):
+    return dict(TAR_EXTS)[ext]
+
+
+def write_archive_kw(case, ref, workdir, made):
+    """Returns [(label, target, expected compression)]; expected compression 'any' = not promised."""
+    import fs
+    from fs import compress, tarfs, zipfs
+    from fs.tempfs import TempFS
+    kw = case["kw"]
+    fam, api, tree = kw["fam"], kw["api"], case["tree"]
+    args = kw_decode(kw, kw["args"], workdir, made)
+    zipf = fam == "zip"
+    Ctor = zipfs.ZipFS if zipf else tarfs.TarFS
+    Cls = zipfs.WriteZipFS if zipf else tarfs.WriteTarFS
+    named = kw["target"] in ("path", "filehandle")
+    implied = None if zipf or not named else tar_name_compression(kw["ext"])
+    base = {} if kw["base_temp"] == "default" or "temp_fs" in args else {"temp_fs": "mem://"}
+
+    def fill(w):
+        build_tree(w, tree)
+        set_times(w, tree)
+    outs = []
+    if api in ("ctor", "cls"):
+        tgt = kw_target(kw["target"], kw["ext"], workdir, made)
+        call = dict(base, **args)
+        w = Ctor(tgt, write=True, **call) if api == "ctor" else Cls(tgt, **call)
+        try:
+            fill(w)
+        finally:
+            w.close()
+        want = args.get("compression", kw_default(fam, api, "compression"))
+        if not zipf and want is None:
+            want = implied if api == "ctor" else None
+        outs.append((api, tgt, want))
+    elif api == "method":
+        # the constructor's own file is a path when the method call writes to it too (file left out or None:
+        # the archive is then simply written twice), otherwise a BytesIO next to the method's target
+        margs = dict(args)
+        fspec = margs.pop("file", None)
+        explicit = fspec in KW_TARGETS or (fspec is None and bool(margs))
+        tgt0 = kw_target("bytesio" if explicit else "path", kw["ext"], workdir, made, tag="kw0")
+        w = Ctor(tgt0, write=True, **base)
+        want0 = kw_default(fam, "ctor", "compression")
+        if not zipf:
+            want0 = None if explicit else tar_name_compression(kw["ext"])
+        try:
+            fill(w)
+            tgt = None
+            if explicit:
+                tgt = margs["file"] = kw_target(fspec or kw["target"], kw["ext"], workdir, made)
+            elif fspec == "none":
+                margs["file"] = None
+            (w.write_zip if zipf else w.write_tar)(**margs)
+            if tgt is not None:
+                want = margs.get("compression")
+                outs.append(("method", tgt, want0 if want is None else want))
+        finally:
+            w.close()
+        outs.append(("method-close", tgt0, want0))
+    elif api == "compress":
+        tgt = kw_target(kw["target"], kw["ext"], workdir, made)
+        if kw["base_temp"] == "mem":
+            src, own = ref, False
+        else:
+            src, own = TempFS(), True
+            fill(src)
+        try:
+            (compress.write_zip if zipf else compress.write_tar)(src, tgt, **args)
+        finally:
+            if own:
+                src.close()
+        outs.append((api, tgt, args.get("compression", kw_default(fam, api, "compression"))))
+    else:
+        tgt = kw_target("path", kw["ext"], workdir, made)
+        w = fs.open_fs(fam + "://" + tgt, create=True, **args)
+        try:
+            fill(w)
+        finally:
+            w.close()
+        outs.append((api, tgt, kw_default(fam, "ctor", "compression") if zipf else implied))
+    for _l, t, _w in outs:
+        if hasattr(t, "seek"):
+            t.seek(0)
+    return outs
+
+
+def open_readonly(case, tgt, workdir, made):
+    import fs
+    from fs import tarfs, zipfs
+    zipf = family(case["fmt"]) == "zip"
+    kw = case.get("kw")
+    if not kw:
+        return zipfs.ZipFS(tgt) if zipf else tarfs.TarFS(tgt)
+    rargs = kw_decode(kw, kw["read_args"], workdir, made)
+    if kw["read"] == "opener" and not hasattr(tgt, "seek"):
+        return fs.open_fs(("zip://" if zipf else "tar://") + tgt, **rargs)
+    if kw["read"] == "cls":
+        return (zipfs.ReadZipFS if zipf else tarfs.ReadTarFS)(tgt, **rargs)
+    return (zipfs.ZipFS if zipf else tarfs.TarFS)(tgt, **rargs)
+
+
+def check_compression(fam, tgt, want):
+    """The compression found in the archive bytes (read with zipfile / by magic number) against `want`."""
+    if hasattr(tgt, "seek"):
+        tgt.seek(0)
+        head = tgt.read(8)
+        tgt.seek(0)
+    else:
+        with open(tgt, "rb") as fh:
+            head = fh.read(8)
+    if fam == "tar":
+        got = None
+        for c, magic in TAR_MAGIC.items():
+            if head.startswith(magic):
+                got = c
+        return [] if got == want else [dict(kind="compression", path="<archive>", detail=dict(got=got, want=want))]
+    with zipfile.ZipFile(tgt) as z:
+        got = sorted(set(zi.compress_type for zi in z.infolist() if zi.file_size > 0))
+    if hasattr(tgt, "seek"):
+        tgt.seek(0)
+    return [] if got in ([], [want]) else [dict(kind="compression", path="<archive>", detail=dict(got=got, want=want))]
+
+
+def run_kw(case, ref, exp, workdir):
+    kw = case["kw"]
+    made = []
+    key = "%s %s" % (kw["fam"], "lenient" if kw["lenient"] else "strict")
+    try:
+        try:
+            outs = write_archive_kw(case, ref, workdir, made)
+        except Exception as e:  # noqa
+            if kw["lenient"]:
+                # a name the requested encoding cannot express: refusing to write is acceptable
+                KW_STATS[key + ": write raised"] = KW_STATS.get(key + ": write raised", 0) + 1
+                return []
+            return [dict(kind="exception", path="<write>", detail=common.exc_name(e) + ": " + str(e)[:200])]
+        KW_STATS[key + ": written"] = KW_STATS.get(key + ": written", 0) + 1
+        fails = []
+        for label, tgt, want in outs:
+            try:
+                ro = open_readonly(case, tgt, workdir, made)
+            except Exception as e:  # noqa
+                fails.append(dict(kind="exception", path="<open>", detail=common.exc_name(e) + ": " + str(e)[:200],
+                                  archive=label))
+                continue
+            try:
+                sub = compare(ro, exp, case["fmt"])
+            finally:
+                ro.close()
+            if want != "any":
+                sub += check_compression(kw["fam"], tgt, want)
+            for f in sub:
+                f["archive"] = label
+            fails += sub
+        return fails
+    finally:
+        for obj in made:
+            try:
+                obj.close()
+            except Exception:  # noqa
+                pass
+        for name in os.listdir(workdir):
+            if name.startswith("osfs"):
+                shutil.rmtree(os.path.join(workdir, name), ignore_errors=True)
 
 
 # --------------------------------------------------------------------------- crafted archives
@@ -832,6 +1314,26 @@ def explore(tier, seed):
                      [("tar.bz2", "mem", "bytesio", "compress"), ("tar.xz", "default", "path", "fs")]
         for f, t, g, r in combos:
             roundtrips.append(dict(tree=tree, fmt=f, temp=t, target=g, route=r, tz=None))
+    # boundary modification times of each family, through every configuration of that family
+    timecases = []
+    tar_tree, tar_mem_tree, zip_tree = time_tree(TAR_TIMES), time_tree(TAR_TIMES + TAR_TIMES_MEM), time_tree(ZIP_TIMES)
+    for f in FORMATS:
+        for t in TEMPS:
+            for g in TARGETS:
+                for r in ROUTES:
+                    tree = zip_tree if family(f) == "zip" else tar_mem_tree if t == "mem" else tar_tree
+                    timecases.append(dict(tree=tree, fmt=f, temp=t, target=g, route=r, tz=None))
+    for _ in range(60 if thorough else 8):
+        tree = gen_tree(rnd, [rnd.randint(1, 14)], gen_mtime=gen_mtime_tar)
+        for f in FORMATS:
+            if family(f) == "tar":
+                timecases.append(dict(tree=tree, fmt=f, temp=rnd.choice(TEMPS), target=rnd.choice(TARGETS),
+                                      route=rnd.choice(ROUTES), tz=None))
+    for t in TEMPS:
+        for r in ROUTES:
+            timecases.append(dict(tree=tar_tree, fmt="tar", temp=t, target="bytesio", route=r, tz=ALT_TZ))
+            timecases.append(dict(tree=zip_tree, fmt="zip-stored", temp=t, target="bytesio", route=r, tz=ALT_TZ))
+    roundtrips += timecases
     # a non-UTC zone: same expectations (true epoch at the format's resolution)
     for tree in trees[3:4] + trees[7:7 + (12 if thorough else 3)]:
         for f in ("zip-deflated", "tar"):
@@ -860,7 +1362,9 @@ def explore(tier, seed):
     for _ in range(1500 if thorough else 60):
         crafted.append(dict(fmt=rnd.choice(["zip", "tar"]),
                             members=[list(rnd.choice(singles)) for _i in range(rnd.randint(3, 4))]))
-    return dict(roundtrips=roundtrips, crafted=crafted)
+    kwcases, unmodelled, swept = explore_kw(rnd, thorough)
+    return dict(roundtrips=roundtrips, crafted=crafted, kwcases=kwcases, kw_unmodelled=unmodelled, kw_swept=swept,
+                timecases=len(timecases))
 
 
 def flatten(nodes):
@@ -878,12 +1382,14 @@ def evaluate(plan, workdir, progress=False):
     failures = []
     canon = {}
     t0 = time.time()
-    for i, case in enumerate(plan["roundtrips"]):
+    KW_STATS.clear()
+    allrt = plan["roundtrips"] + plan.get("kwcases", [])
+    for i, case in enumerate(allrt):
         fails = run_roundtrip(case, workdir)
         if fails:
             failures.append(("roundtrip", case, roundtrip_signature(case, fails), fails[:6], None))
         if progress and i % 500 == 0:
-            print("  roundtrip %d/%d %.1fs" % (i, len(plan["roundtrips"]), time.time() - t0))
+            print("  roundtrip %d/%d %.1fs" % (i, len(allrt), time.time() - t0))
             sys.stdout.flush()
     for i, case in enumerate(plan["crafted"]):
         kinds, details = run_crafted(case, workdir)
@@ -948,6 +1454,25 @@ def coverage_of(plan, failures, sigs):
         h("crafted_class", members_classes([tuple(m) for m in c["members"]]))
         if c["members"]:
             distinct.add(json.dumps([c["fmt"], c["members"]]))
+    kwc = plan.get("kwcases", [])
+    for c in kwc:
+        kw = c["kw"]
+        h("kw_family", kw["fam"])
+        h("kw_write_callable", kw["api"])
+        h("kw_read_callable", kw["read"])
+        h("kw_target", kw["target"])
+        h("kw_file_name", kw["ext"])
+        h("kw_oracle", "names outside the encoding: same tree or write raises" if kw["lenient"] else "same tree")
+        if not kw["args"] and not kw["read_args"]:
+            h("kw_parameter_value", "(all defaults)")
+        for side, a in (("", kw["args"]), ("read:", kw["read_args"])):
+            for k in sorted(a):
+                if side == "" or k not in kw["args"]:
+                    h("kw_parameter_value", "%s%s=%r" % (side, k, a[k]))
+        fl = flatten(c["tree"])
+        if any(len(x["n"]) > 255 for x in fl):
+            h("kw_features", "has a component of more than 255 characters")
+        distinct.add(json.dumps([c["tree"], kw], sort_keys=True))
     for s in sigs:
         hist.setdefault("failure_signatures", {})[s] = sigs[s]
     samples = []
@@ -957,8 +1482,16 @@ def coverage_of(plan, failures, sigs):
                             tree=c["tree"] if count_nodes(c["tree"]) <= 6 else c["tree"][:2]))
     for c in (plan["crafted"][0], plan["crafted"][len(plan["crafted"]) // 2], plan["crafted"][-1]):
         samples.append(dict(kind="crafted", format=c["fmt"], members=c["members"]))
+    tb = [c for c in rt if any(x["t"] < T1980 or x["t"] > 4102444799 for x in flatten(c["tree"]))]
     return dict(
-        evaluations=len(rt) + len(plan["crafted"]), distinct_nontrivial=len(distinct),
+        evaluations=len(rt) + len(plan["crafted"]) + len(kwc), distinct_nontrivial=len(distinct),
+        time_boundary_cases=plan.get("timecases", 0),
+        time_boundaries=dict(tar=TAR_TIMES, tar_memory_temp_only=TAR_TIMES_MEM, zip=ZIP_TIMES,
+                             cases_with_times_outside_1980_2099=len(tb),
+                             cases_with_mtime_zero=len([c for c in rt if any(x["t"] == 0 for x in flatten(c["tree"]))])),
+        kw_cases=len(kwc), kw_swept_parameters=plan.get("kw_swept", {}),
+        kw_unmodelled_parameters=plan.get("kw_unmodelled", []),
+        kw_outcomes=dict(KW_STATS), kw_encodings=ENCODINGS, kw_name_pool=len(KW_POOL) + len(KW_LONG_COMPONENT),
         rule="round trips: fixed trees (empty, single empty dir/file, time boundaries, every pool name as file and "
              "as directory, a depth-6 chain) + random trees (<= 14 nodes quick / <= 40 thorough, depth <= 6, 1 MiB "
              "files in thorough) x {zip stored, zip deflated, tar, tar.gz, tar.bz2, tar.xz} x temp_fs/source "
@@ -966,7 +1499,15 @@ def coverage_of(plan, failures, sigs):
              "(all 48 combinations for the fixed trees, and for every tree in thorough; 12 per random tree in quick) "
              "+ non-UTC zone runs; compared in both directions via walk, getinfo(details), readbytes, openbin, "
              "listdir, exists/isdir/isfile; mtime expected = floor(t) for tar, floor(t) rounded down to an even "
-             "second for zip. crafted: every single hostile/odd member name as file and as directory, pairs "
+             "second for zip. time bounds: a tree carrying every boundary time of the family (tar 0, +-1, -2**31, "
+             "2**31-1.., 2**33.., fractions; zip 1980..2107, even/odd/fractional seconds) on files and directories "
+             "x every configuration of the family + random trees over the tar time range. keywords: every keyword "
+             "parameter found by inspect.signature on ZipFS/TarFS (write and read mode), Write*/Read* classes, "
+             "write_zip/write_tar methods, fs.compress.write_*, open_fs('zip://'/'tar://') x each documented value "
+             "(one at a time in quick, full product for constructors and fs.compress in thorough) on a tree of "
+             "non-ASCII / long / odd names restricted to the names the requested encoding can express (strict) or not "
+             "restricted (then a write error is acceptable); the compression found in the archive must be the one "
+             "requested or implied by the file name. crafted: every single hostile/odd member name as file and as directory, pairs "
              "(sampled in quick, all in thorough), random 3-4 member archives, symlink members; each followed by a "
              "harmless member; opened by path inside a canary directory tree; non-trivial = distinct non-empty "
              "(tree, configuration) and distinct non-empty member lists",
@@ -984,6 +1525,7 @@ def run(report):
         failures = evaluate(plan, workdir)
         known_local = local_known()
         sig_count = {}
+        pending = {}
         reported = set()
         for famly, case, sig, details, small in failures:
             sig_count[sig] = sig_count.get(sig, 0) + 1
@@ -994,6 +1536,9 @@ def run(report):
                         entry = k
             if entry is not None:
                 report.known_finding(entry)
+                continue
+            if sig in PENDING_FINDINGS:
+                pending[sig] = pending.get(sig, 0) + 1
                 continue
             if sig in reported or len(reported) >= 12:
                 continue
@@ -1009,6 +1554,9 @@ def run(report):
                 report.violation(dict(kind="roundtrip", signature=sig, case=small, failures=fails[:6],
                                       theorem="Props/C15.v (names_roundtrip)"))
         cov = coverage_of(plan, failures, sig_count)
+        cov["pending_findings_seen"] = pending
+        for u in plan.get("kw_unmodelled", []):
+            print("NOTE: C15 keyword parameter without a value table (not swept): %s" % u)
     finally:
         shutil.rmtree(workdir, ignore_errors=True)
     return report.finish(proof, cov, assumptions=[
@@ -1037,7 +1585,7 @@ def replay(report, path):
                 print("  ", x)
             return 1 if kinds else 0
         fails = run_roundtrip(case, workdir)
-        print("configuration:", dict((k, case.get(k)) for k in ("fmt", "temp", "target", "route", "tz")))
+        print("configuration:", dict((k, case.get(k)) for k in ("fmt", "temp", "target", "route", "tz", "kw")))
         for f in fails[:10]:
             print("  ", f)
         return 1 if fails else 0
@@ -1052,7 +1600,7 @@ if __name__ == "__main__":
     wd = tempfile.mkdtemp(prefix="pyfs2verif_c15_")
     t0 = time.time()
     plan = explore(tier, seed)
-    print("cases: %d round trips, %d crafted" % (len(plan["roundtrips"]), len(plan["crafted"])))
+    print("cases: %d round trips, %d keyword, %d crafted" % (len(plan["roundtrips"]), len(plan["kwcases"]), len(plan["crafted"])))
     fl = evaluate(plan, wd, progress=True)
     sigs = {}
     for famly, case, sig, details, small in fl:
@@ -1064,7 +1612,7 @@ if __name__ == "__main__":
             print("         e.g.", small["fmt"], small["members"], det[:1])
         else:
             c2 = shrink_tree(c, sg, wd)
-            print("         e.g.", dict((k, c2[k]) for k in ("fmt", "temp", "target", "route", "tz")), c2["tree"],
+            print("         e.g.", dict((k, c2.get(k)) for k in ("fmt", "temp", "target", "route", "tz", "kw")), c2["tree"],
                   run_roundtrip(c2, wd)[:2])
     cov = coverage_of(plan, fl, dict((k, len(v)) for k, v in sigs.items()))
     print("evaluations", cov["evaluations"], "distinct_nontrivial", cov["distinct_nontrivial"])
